@@ -46,6 +46,32 @@ def dfAt (B : Buf) : DF :=
   else if id = 21 then .commBId (bitsAt B 5 3) (drAt B) (umAt B) (decodeId13 (bitsAt B 19 13)) (bdsAt B) (bitsAt B 88 24)
   else .modeS (bitsAt B 0 5) (capAt B) (bitsAt B 8 24) (bitsAt B 32 5) (leBitsAt B 37 51) (bitsAt B 88 24)
 
+theorem dfAt_17 (B : Buf) (c : bitsAt B 0 5 = 17) : dfAt B = .adsb (capAt B) (bitsAt B 8 24) (meAt B) (bitsAt B 88 24) := by
+  simp [dfAt, c]
+theorem dfAt_11 (B : Buf) (c : bitsAt B 0 5 = 11) : dfAt B = .allCall (capAt B) (bitsAt B 8 24) (bitsAt B 32 24) := by
+  simp [dfAt, c]
+theorem dfAt_0 (B : Buf) (c : bitsAt B 0 5 = 0) : dfAt B = .shortAirAir (bitsAt B 5 1) (bitsAt B 6 1) (bitsAt B 7 1) (bitsAt B 8 3)
+    (bitsAt B 11 2) (bitsAt B 13 4) (bitsAt B 17 2) (ac13 (bitsAt B 19 13)) (bitsAt B 32 24) := by
+  simp [dfAt, c]
+theorem dfAt_4 (B : Buf) (c : bitsAt B 0 5 = 4) : dfAt B = .survAlt (bitsAt B 5 3) (drAt B) (umAt B) (ac13 (bitsAt B 19 13)) (bitsAt B 32 24) := by
+  simp [dfAt, c]
+theorem dfAt_5 (B : Buf) (c : bitsAt B 0 5 = 5) : dfAt B = .survId (bitsAt B 5 3) (drAt B) (umAt B) (identityCode (bitsAt B 19 13)) (bitsAt B 32 24) := by
+  simp [dfAt, c]
+theorem dfAt_16 (B : Buf) (c : bitsAt B 0 5 = 16) : dfAt B = .longAirAir (bitsAt B 5 1) (bitsAt B 6 2) (bitsAt B 8 3) (bitsAt B 11 2) (bitsAt B 13 4)
+    (bitsAt B 17 2) (ac13 (bitsAt B 19 13)) (bitsAt B 32 56) (bitsAt B 88 24) := by
+  simp [dfAt, c]
+theorem dfAt_18 (B : Buf) (c : bitsAt B 0 5 = 18) : dfAt B = .tisb (bitsAt B 5 3) (bitsAt B 8 24) (meAt B) (bitsAt B 88 24) := by
+  simp [dfAt, c]
+theorem dfAt_19 (B : Buf) (c : bitsAt B 0 5 = 19) : dfAt B = .military (bitsAt B 5 3) := by
+  simp [dfAt, c]
+theorem dfAt_20 (B : Buf) (c : bitsAt B 0 5 = 20) : dfAt B = .commBAlt (bitsAt B 5 3) (drAt B) (umAt B) (ac13 (bitsAt B 19 13)) (bdsAt B) := by
+  simp [dfAt, c]
+theorem dfAt_21 (B : Buf) (c : bitsAt B 0 5 = 21) : dfAt B = .commBId (bitsAt B 5 3) (drAt B) (umAt B) (decodeId13 (bitsAt B 19 13)) (bdsAt B) (bitsAt B 88 24) := by
+  simp [dfAt, c]
+theorem dfAt_24 (B : Buf) (c : 24 ≤ bitsAt B 0 5) : dfAt B = .modeS (bitsAt B 0 5) (capAt B) (bitsAt B 8 24) (bitsAt B 32 5) (leBitsAt B 37 51) (bitsAt B 88 24) := by
+  have n : ∀ k, k < 24 → ¬ bitsAt B 0 5 = k := fun k hk hc => by omega
+  simp [dfAt, n 17, n 11, n 0, n 4, n 5, n 16, n 18, n 19, n 20, n 21]
+
 /-- frame length in bytes of a 5-bit format code; `none` = unsupported format -/
 def frameLen (id : Nat) : Option Nat :=
   if id = 0 ∨ id = 4 ∨ id = 5 ∨ id = 11 then some 7
